@@ -720,3 +720,57 @@ Proof.
   destruct (read_exact_app (nat_of len) j' payload r B' (eq_sym Hnat)) as (j'' & R2 & B2 & E2).
   exists j''. rewrite (bind_ok _ _ _ _ _ _ _ R2). unfold ret. split; [reflexivity|]. split; congruence.
 Qed.
+
+(* ---- WriteToRFBServer: whatever the kernel does (short writes, EAGAIN any number of times), the
+   bytes it is handed are exactly the buffer, in order ---- *)
+Lemma lvc_write_complete : forall sched buf acc,
+  Forall (fun k => 0 <= k) sched ->
+  exists rest, lvc_write sched buf acc = (acc ++ buf, rest, true) /\ Forall (fun k => 0 <= k) rest.
+Proof.
+  induction sched as [|k r IH]; intros buf acc H.
+  - destruct buf as [|b q]; cbn [lvc_write].
+    + exists []. rewrite app_nil_r. split; [reflexivity|constructor].
+    + exists []. split; [reflexivity|constructor].
+  - inversion H as [|? ? Hk Hr]; subst.
+    destruct buf as [|b q].
+    + cbn [lvc_write]. exists (k :: r). rewrite app_nil_r. split; [reflexivity|exact H].
+    + cbn [lvc_write]. destruct (k =? 0) eqn:E0; [apply IH; exact Hr|].
+      replace (k <? 0) with false by (symmetry; apply Z.ltb_ge; exact Hk).
+      set (n := Nat.min (Z.to_nat k) (length (b :: q))).
+      destruct (IH (skipn n (b :: q)) (acc ++ firstn n (b :: q)) Hr) as (rest & E & F).
+      exists rest. rewrite E. rewrite <- app_assoc, firstn_skipn. split; [reflexivity|exact F].
+Qed.
+
+Lemma lvc_write_all_complete : forall parts sched acc,
+  Forall (fun k => 0 <= k) sched ->
+  exists rest, lvc_write_all sched parts acc = (acc ++ concat parts, rest, true).
+Proof.
+  induction parts as [|b r IH]; intros sched acc H; cbn [lvc_write_all concat].
+  - exists sched. rewrite app_nil_r. reflexivity.
+  - destruct (lvc_write_complete sched b acc H) as (rest & E & F). rewrite E.
+    destruct (IH rest (acc ++ b) F) as (rest' & E'). exists rest'. rewrite E', app_assoc. reflexivity.
+Qed.
+
+(* an error other than EAGAIN: FALSE, and what was written before is a prefix of the buffer *)
+Lemma lvc_write_prefix : forall sched buf acc,
+  exists pre suf, fst (fst (lvc_write sched buf acc)) = acc ++ pre /\ buf = pre ++ suf.
+Proof.
+  induction sched as [|k r IH]; intros buf acc.
+  - destruct buf as [|b q]; cbn [lvc_write fst]; [exists [], []|exists (b :: q), []]; rewrite ?app_nil_r; auto.
+  - destruct buf as [|b q]; cbn [lvc_write]; [exists [], []; cbn; rewrite app_nil_r; auto|].
+    destruct (k =? 0); [apply IH|]. destruct (k <? 0); [exists [], (b :: q); cbn; rewrite app_nil_r; auto|].
+    set (n := Nat.min (Z.to_nat k) (length (b :: q))).
+    destruct (IH (skipn n (b :: q)) (acc ++ firstn n (b :: q))) as (pre & suf & E1 & E2).
+    exists (firstn n (b :: q) ++ pre), suf. rewrite E1, <- !app_assoc. split; [reflexivity|].
+    rewrite <- E2. symmetry. apply firstn_skipn.
+Qed.
+
+Lemma send_cut_parts_concat : forall text, concat (lvc_send_cut_parts text) = lvc_send_cut text.
+Proof. intros. unfold lvc_send_cut_parts, lvc_send_cut. cbn [concat]. rewrite app_nil_r. reflexivity. Qed.
+
+Lemma send_utf8_parts_concat : forall zsync l text,
+  option_map (@concat Z) (lvc_send_utf8_parts zsync l text) = lvc_send_utf8 zsync l text.
+Proof.
+  intros. unfold lvc_send_utf8_parts, lvc_send_utf8. destruct (l_caps l =? 0); [reflexivity|].
+  cbn [option_map concat]. rewrite app_nil_r. unfold cut_hdr. rewrite <- !app_assoc. reflexivity.
+Qed.
